@@ -26,6 +26,32 @@ type event struct {
 	n        int  // ordinal among the pause points of this actor run
 	resume   chan struct{}
 	lockedMs string
+	gid      string // goroutine that issued the mutation
+}
+
+// goroutineID returns the id of the calling goroutine ("goroutine 123 [running]:" header).
+func goroutineID() string {
+	var buf [64]byte
+	n := runtime.Stack(buf[:], false)
+	f := strings.Fields(string(buf[:n]))
+	if len(f) >= 2 {
+		return f[1]
+	}
+	return "?"
+}
+
+// goroutineAlive reports whether a goroutine with this id still exists.
+func goroutineAlive(gid string) bool {
+	buf := make([]byte, 1<<20)
+	for {
+		n := runtime.Stack(buf, true)
+		if n < len(buf) {
+			buf = buf[:n]
+			break
+		}
+		buf = make([]byte, 2*len(buf))
+	}
+	return strings.Contains(string(buf), "goroutine "+gid+" [")
 }
 
 // pauser is the VFS observer (lib/fileops verif hook). When an actor class is gated, every
@@ -38,14 +64,15 @@ type pauser struct {
 	gate   map[string]bool
 	hold   func(ev *event) bool // optional filter: pause only at these events
 	count  map[string]int
-	events chan *event
+	events chan *event // wake-up only; the events themselves are in pending
+	pending []*event
 	// after-hook log (what was done), for step inference and the "work after close" check
 	afterLog []string
 	closedAt int // index into afterLog when Close returned (-1 = not yet)
 }
 
 func newPauser(root string) *pauser {
-	return &pauser{root: root, gate: map[string]bool{}, count: map[string]int{}, events: make(chan *event), closedAt: -1}
+	return &pauser{root: root, gate: map[string]bool{}, count: map[string]int{}, events: make(chan *event, 64), closedAt: -1}
 }
 
 // classify finds out which background actor the calling goroutine is, from its call stack.
@@ -121,7 +148,7 @@ func (p *pauser) Before(op, path, path2 string, n int64) {
 	if gated {
 		p.count[actor]++
 		rel2, _ := p.relOf(path2)
-		ev = &event{actor: actor, op: op, rel: rel, rel2: rel2, n: p.count[actor], resume: make(chan struct{})}
+		ev = &event{actor: actor, op: op, rel: rel, rel2: rel2, n: p.count[actor], resume: make(chan struct{}), gid: goroutineID()}
 		// the compact-log removal inside ReplaceFiles is under the list lock as well
 		if actor != actFlush && op == "remove" {
 			inLock = true
@@ -133,10 +160,17 @@ func (p *pauser) Before(op, path, path2 string, n int64) {
 		if p.hold != nil && !p.hold(ev) {
 			ev = nil
 		}
+		if ev != nil {
+			// registered before blocking: the driver sees every goroutine that stands at a gate
+			p.pending = append(p.pending, ev)
+		}
 	}
 	p.mu.Unlock()
 	if ev != nil {
-		p.events <- ev
+		select {
+		case p.events <- ev:
+		default:
+		}
 		<-ev.resume
 	}
 }
@@ -180,16 +214,72 @@ func (p *pauser) sawAfter(from int, pred func(line string) bool) bool {
 	return false
 }
 
-// waitEvent waits for the next pause point or for the actor to finish.
-func waitEvent(p *pauser, done <-chan string, timeout time.Duration) (ev *event, finished bool, perr string, timedOut bool) {
-	t := time.NewTimer(timeout)
-	defer t.Stop()
-	select {
-	case ev = <-p.events:
-		return ev, false, "", false
-	case perr = <-done:
-		return nil, true, perr, false
-	case <-t.C:
-		return nil, false, "", true
+// takePending removes and returns the next goroutine standing at a gate: the one that was
+// resumed last if it is there again (an actor runs to its end before another one moves), else
+// the oldest. inLock lists the measurements whose list lock some waiting goroutine holds.
+func (p *pauser) takePending(prefer string) (ev *event, others []*event) {
+	p.mu.Lock()
+	defer p.mu.Unlock()
+	if len(p.pending) == 0 {
+		return nil, nil
+	}
+	k := 0
+	for i, e := range p.pending {
+		if e.gid == prefer {
+			k = i
+			break
+		}
+	}
+	ev = p.pending[k]
+	p.pending = append(append([]*event{}, p.pending[:k]...), p.pending[k+1:]...)
+	return ev, append([]*event{}, p.pending...)
+}
+
+func (p *pauser) hasPending(gid string) bool {
+	p.mu.Lock()
+	defer p.mu.Unlock()
+	for _, e := range p.pending {
+		if gid == "" || e.gid == gid {
+			return true
+		}
+	}
+	return false
+}
+
+// waitEvent waits until the goroutine that was resumed last (cur) stands at a gate again or
+// is gone, then returns the next waiting goroutine; or reports that the whole operation has
+// finished. Only one goroutine that has passed a gate runs at any time, so between two pause
+// points exactly one actor moved.
+func waitEvent(p *pauser, done <-chan string, timeout time.Duration, cur string) (ev *event, others []*event, finished bool, perr string, timedOut bool) {
+	deadline := time.Now().Add(timeout)
+	tick := time.NewTicker(time.Millisecond)
+	defer tick.Stop()
+	curGone := cur == ""
+	stuckSince := time.Now()
+	for {
+		if !curGone && p.hasPending(cur) {
+			curGone = true
+		}
+		if curGone && p.hasPending("") {
+			ev, others = p.takePending(cur)
+			return ev, others, false, "", false
+		}
+		select {
+		case perr = <-done:
+			return nil, nil, true, perr, false
+		case <-p.events:
+		case <-tick.C:
+			if !curGone && !goroutineAlive(cur) {
+				curGone = true
+			}
+			if !curGone && time.Since(stuckSince) > 5*time.Second {
+				// the resumed goroutine neither moves nor ends (it waits for one that stands at a
+				// gate): let the others go on
+				curGone = true
+			}
+			if time.Now().After(deadline) {
+				return nil, nil, false, "", true
+			}
+		}
 	}
 }
